@@ -102,6 +102,7 @@ type outcome struct {
 	Err       string // non-empty: the function left the interpretable fragment (undecided)
 	Calls     []string
 	ArithCond bool
+	Final     map[string]*val // parameter values at exit (the interpreter's view of *T parameters is by reference within one call)
 }
 
 type interp struct {
@@ -129,7 +130,12 @@ func runFunc(info *types.Info, fd *ast.FuncDecl, args []*val, hooks map[string]h
 func runFuncEx(info *types.Info, fd *ast.FuncDecl, args []*val, hooks map[string]hookFn, decls map[string]*ast.FuncDecl, depth int) (out *outcome) {
 	it := &interp{info: info, env: map[types.Object]*val{}, hooks: hooks, out: &outcome{}, decls: decls, depth: depth}
 	out = it.out
+	var params []*ast.Ident
 	defer func() {
+		out.Final = map[string]*val{}
+		for _, p := range params {
+			out.Final[p.Name] = it.env[info.Defs[p]]
+		}
 		if r := recover(); r != nil {
 			switch e := r.(type) {
 			case interpPanic:
@@ -141,7 +147,6 @@ func runFuncEx(info *types.Info, fd *ast.FuncDecl, args []*val, hooks map[string
 			}
 		}
 	}()
-	var params []*ast.Ident
 	if fd.Recv != nil {
 		for _, f := range fd.Recv.List {
 			params = append(params, f.Names...)
@@ -154,7 +159,11 @@ func runFuncEx(info *types.Info, fd *ast.FuncDecl, args []*val, hooks map[string
 		it.fail("arity: %d params, %d args", len(params), len(args))
 	}
 	for i, p := range params {
-		it.env[info.Defs[p]] = args[i].clone()
+		if _, isPtr := info.Defs[p].Type().Underlying().(*types.Pointer); isPtr {
+			it.env[info.Defs[p]] = args[i] // *T: the callee sees and updates the caller's object
+		} else {
+			it.env[info.Defs[p]] = args[i].clone()
+		}
 	}
 	if fd.Type.Results != nil {
 		for _, f := range fd.Type.Results.List {
@@ -459,6 +468,15 @@ func (it *interp) arith(op token.Token, a, b *val, t types.Type) *val {
 		r = a.i & b.i
 	case token.OR:
 		r = a.i | b.i
+	case token.REM:
+		if b.i == 0 {
+			panic(interpPanic{"divide by zero"})
+		}
+		if isUnsignedT(t) {
+			r = int64(uint64(a.i) % uint64(b.i))
+		} else {
+			r = a.i % b.i
+		}
 	case token.QUO:
 		if b.i == 0 {
 			panic(interpPanic{"divide by zero"})
